@@ -360,8 +360,11 @@ pub fn pygen(out_path: &str, tier: Tier, seed: u64) -> i32 {
         let (centre, rad) = if target == "goal" { (sc.problem.goal.centre.clone(), sc.problem.goal.radius * r.range(0.5, 0.9)) } else { (centre, rad) };
         let region = Prim::Shell { centre, r_in: 0.0, r_out: rad };
         let region_json = crate::world::World { prims: vec![region.clone()] }.to_json()[0].clone();
-        let when = if r.bool(0.6) { "region" } else { "kth" };
-        let k = r.below(10) as u64;
+        // "window": calls k .. k+len all misbehave - a long uninterrupted streak (130-400 calls)
+        // after which the callback works again; nothing may be remembered about the streak
+        let when = if target == "validity" && r.bool(0.15) { "window" } else if r.bool(0.6) { "region" } else { "kth" };
+        let k = if when == "window" { 1 + r.below(6) as u64 } else { r.below(10) as u64 };
+        let streak = 130 + r.below(270) as u64;
         // core expectation for region faults on the validity callback: the world with F added
         let mut core_expected = Value::Null;
         if target == "validity" && when == "region" && sc.params.kind != PKind::Prm {
@@ -380,7 +383,7 @@ pub fn pygen(out_path: &str, tier: Tier, seed: u64) -> i32 {
         };
         let timeout = if sc.params.kind == PKind::Prm { 2.0 } else { 1.5 };
         for kind in kinds {
-            let fault = json!({"target":target,"when":when,"kind":kind,"region":region_json,"k":k});
+            let fault = json!({"target":target,"when":when,"kind":kind,"region":region_json,"k":k,"len":streak});
             let exp = if *kind == "false" { core_expected.clone() } else { Value::Null };
             scenarios.push(scenario_entry(id, "C20", &sc, 0.05, timeout, exp, fault, json!(g)));
             id += 1;
